@@ -43,6 +43,13 @@ def drivers(tier):
             shapes=((), ('A',), ('HR',), ('A', 'HR'), ('HR', 'A')),
             **common),
             dict(max_states=400000, time_budget=400))
+        # an on_remove that deletes the other entity at once - which may
+        # own a component of the same class
+        d['callback-deletes-other'] = (WorldDriver(
+            'callback-deletes-other', types=('A', 'HK'), ids=(1, 2),
+            explicit_ids=(1, 2), max_autos=0,
+            shapes=((), ('A',), ('HK',), ('A', 'HK')), **common),
+            dict(max_states=400000, time_budget=400))
         # identifiers of unrelated (not mutually orderable) types
         d['mixed-ids'] = (WorldDriver(
             'mixed-ids', types=('A',), ids=(1, 's', (2, 3)),
@@ -50,6 +57,12 @@ def drivers(tier):
             shapes=((), ('A',)), **common),
             dict(max_states=400000, time_budget=400))
     else:
+        d['callback-deletes-other'] = (WorldDriver(
+            'callback-deletes-other', types=('A', 'X', 'HK'), ids=(1, 2),
+            explicit_ids=(1, 2), max_autos=1,
+            shapes=((), ('A',), ('HK',), ('A', 'HK'), ('X', 'HK')),
+            **common),
+            dict(max_states=1500000, time_budget=1500))
         d['raising-callback'] = (WorldDriver(
             'raising-callback', types=('A', 'B', 'HR'), ids=(1, 2),
             explicit_ids=(1, 2), max_autos=1,
@@ -92,6 +105,7 @@ def run(tier, rep):
                      pending_row_vanished=1, delete_from_inside_frame=1,
                      delete_from_on_remove=1,
                      frame_failed_by_raising_callback=1,
+                     callback_deletes_other_entity=1,
                      bogus_delete_keyerror=0)
     for name, (driver, kw) in drivers(tier).items():
         kernel.explore(driver, rep, part=name, params=driver.params(), **kw)
